@@ -238,6 +238,7 @@ PowOracle(m, node, orc) ==
     IF orc.t = "noorc" THEN LeftDomain(m, "oracle needed: pow")
     ELSE IF orc.t = "raise" THEN (IF orc.e.exc = "Other" THEN PopExc(m, node, orc.e) ELSE [m EXCEPT !.ctl = [t |-> "badoracle", why |-> "** raised a language-level error"]])
     ELSE IF orc.t = "val" /\ orc.v.t = "dec" /\ ~orc.v.sub /\ Len(orc.v.digs) <= Prec THEN PopRet(m, node, orc.v)
+    ELSE IF orc.t = "val" /\ orc.v.t = "opaque" THEN LeftDomain(m, "special Decimal (Infinity / NaN) from **")
     ELSE [m EXCEPT !.ctl = [t |-> "badoracle", why |-> "** result is not a Decimal of at most 28 digits"]]
 
 RetToNode(m, fr, v, orc) ==
@@ -492,7 +493,9 @@ OracleOk(h, name, args, orc) ==
                   THEN "ok" ELSE "match_all result not a list of substrings")
       [] name = "float" ->
             IF orc.t = "raise" THEN (IF orc.e.exc = "Other" THEN "ok" ELSE "float raised a language-level error")
-            ELSE IF orc.t = "val" /\ orc.v.t = "dec" /\ orc.v.sub THEN "ok" ELSE "float() result not a Decimal"
+            ELSE IF orc.t = "val" /\ orc.v.t = "dec" /\ orc.v.sub THEN "ok"
+            ELSE IF orc.t = "val" /\ orc.v.t = "opaque" THEN "unspec"       \* Decimal('Infinity') from float(1E+500): specials are not modelled
+            ELSE "float() result not a Decimal"
       [] name = "pow" ->
             IF orc.t = "raise" THEN (IF orc.e.exc = "Other" THEN "ok" ELSE "** raised a language-level error")
             ELSE IF orc.t = "val" /\ orc.v.t = "dec" /\ ~orc.v.sub /\ Len(orc.v.digs) <= Prec THEN "ok"
